@@ -426,10 +426,10 @@ pub fn generate_mode(rng: &mut Rng, tier: Tier, cases: &mut Vec<Case>, mode: Mod
         cases.push(cell_case("witness-cell-isolated", &[1, 2], &[2], &[]));
     }
     let (n_random, n_lowered, n_convex, n_reuse, n_ties, n_cells, ex_scope) = match (tier, mode) {
-        (Tier::Quick, Mode::C08) => (500, 400, 100, 100, 200, 400, (3usize, 3usize)),
-        (Tier::Quick, Mode::C09) => (500, 500, 150, 100, 250, 0, (3, 3)),
-        (Tier::Thorough, Mode::C08) => (30000, 20000, 5000, 5000, 10000, 20000, (4, 4)),
-        (Tier::Thorough, Mode::C09) => (30000, 25000, 6000, 5000, 12000, 0, (4, 4)),
+        (Tier::Quick, Mode::C08) => (4000, 3000, 800, 600, 1500, 3000, (3usize, 4usize)),
+        (Tier::Quick, Mode::C09) => (4000, 4000, 1200, 600, 2000, 0, (3, 4)),
+        (Tier::Thorough, Mode::C08) => (100000, 60000, 15000, 15000, 30000, 60000, (4, 4)),
+        (Tier::Thorough, Mode::C09) => (100000, 80000, 20000, 15000, 40000, 0, (4, 4)),
     };
     // ---- exhaustive tiny scope
     let mut ex = Vec::new();
